@@ -258,6 +258,13 @@ func corpus(thorough bool) []caseT {
 		`chunk([1, 2, 3, 4, 5], 2)`,
 		`coalesce(nil, {"z": 1, "a": 2})`,
 		`sprintf("%v %v", {"b": 1, "a": 2}, {2, 1})`,
+		// a map or set that changes while it is being iterated: whatever the loop then does, it does the same every time
+		`m := {"k1": 1, "k2": 2, "k3": 3, "k4": 4, "k5": 5, "k6": 6}; seen := []; for k, v := range m { seen.append(k); if k == "k3" { delete(m, "k1") } }; [seen, m]`,
+		`m := {"k1": 1, "k2": 2, "k3": 3, "k4": 4, "k5": 5, "k6": 6}; seen := []; for k, v := range m { seen.append(k); if k == "k2" { delete(m, "k5") } }; [seen, m]`,
+		`m := {"k1": 1, "k2": 2, "k3": 3, "k4": 4, "k5": 5, "k6": 6}; seen := []; for v in m { seen.append(v); if v == 2 { m.pop("k1", 0); m.pop("k6", 0) } }; [seen, m]`,
+		`m := {"k1": 1, "k2": 2, "k3": 3, "k4": 4}; seen := []; it := iter(m); seen.append(it.next()); delete(m, "k1"); seen.append(it.next()); seen.append(it.next()); seen`,
+		`m := {"k1": 1, "k2": 2, "k3": 3}; seen := []; for k, v := range m { seen.append(k); m["k9"] = 9; m["k0"] = 0 }; [seen, keys(m)]`,
+		`s := {1, 2, 3, 4, 5}; seen := []; for i, v := range s { seen.append(i); if i == 2 { s.remove(1); s.remove(5) } }; [seen, s]`,
 		// map literals wrapped over several lines, keys at different columns, with side effects and duplicates
 		"m := {\"alpha\": print(\"a\"), \"beta\": print(\"b\"),\n  \"c\": print(\"c\")}; m",
 		"m := {\"alpha\": print(\"a\"),\n\"b\": print(\"b\"), \"gamma\": print(\"g\"),\n      \"d\": print(\"d\")}; keys(m)",
